@@ -233,6 +233,24 @@ def c16(tier='quick', seed=0):
                            sample={'policy': pname, 'body': body[:20], 'status': status})
                     if R.full:
                         return R.d
+                # the URL is filled with %-formatting: any key the target holds can be referenced (dotted, dashed), several
+                # keys at once, and %% is a literal per cent sign
+                urls = {'http://srv/%(target.project.id)s/x': 'http://srv/P1/x', 'https://srv/%(res-id)s?u=%(name)s': 'https://srv/R9?u=obj1',
+                        'http://srv/a%%20b/%(name)s': 'http://srv/a%20b/obj1', 'http://srv/%(name)s/%(name)s': 'http://srv/obj1/obj1'}
+                if pname == 'direct:p':
+                    for url_rule, want_url in urls.items():
+                        e2 = mk_enforcer(rules=policy.Rules.from_dict({'u:p': url_rule, 'n:p': 'not ' + url_rule}), conf=conf)
+                        for body, pol, want in (('True', 'u:p', True), ('no', 'u:p', False), ('no', 'n:p', True)):
+                            state.update(body=body, status=200, fault=None)
+                            del calls[:]
+                            tgt = {'name': 'obj1', 'target.project.id': 'P1', 'res-id': 'R9'}
+                            got = outcome(e2.enforce, pol, tgt, {'roles': ['r1']})
+                            bad = None
+                            if got[0] != 'ret' or bool(got[1]) != want:
+                                bad = 'rule %r with reply %r decided %r, expected %r' % (url_rule, body, got[1:], want)
+                            elif not calls or calls[0][0] != want_url:
+                                bad = 'rule %r sent the request to %r, expected %r' % (url_rule, calls and calls[0][0], want_url)
+                            R.case((ctype, 'url', url_rule, body, pol), bad)
                 # opaque objects below the top level: whatever the outcome (the form encoding cannot serialise them and
                 # raises), the caller's target must be left exactly as it was, down to the identity of every member
                 for body in ('True', 'False'):
@@ -426,6 +444,12 @@ def c18(tier='quick', seed=0):
                 defaults.append(policy.RuleDefault('svc:same', 'role:b', deprecated_rule=policy.DeprecatedRule(
                     'svc:same', 'role:legacy', deprecated_reason='r', deprecated_since='s')))
         new_names = [d.name for d in defaults]
+        # the defaults come from one namespace or are spread over two (the successors of a split name in different ones)
+        by_ns = {'ns': defaults}
+        if rng.random() < 0.5:
+            half = [d for i, d in enumerate(defaults) if i % 2 == 0]
+            rest_ = [d for i, d in enumerate(defaults) if i % 2 == 1]
+            by_ns = {'a_ns': half, 'b_ns': rest_} if rng.random() < 0.5 else {'b_ns': half, 'a_ns': rest_}
         file_map = {}
         if rng.random() < 0.7:
             file_map['svc:plain'] = rng.choice(values + ['role:a'])
@@ -446,7 +470,7 @@ def c18(tier='quick', seed=0):
         # ---- policy upgrade
         for fmt in ('yaml', 'json'):
             pol = json.loads(json.dumps(file_map))
-            got = outcome(generator._upgrade_policies, pol, {'ns': defaults})
+            got = outcome(generator._upgrade_policies, pol, by_ns)
             bad = None
             if got[0] != 'ret':
                 bad = 'policy-upgrade raised %s for file %r with defaults %s' % (got[1], file_map, kind)
@@ -463,7 +487,7 @@ def c18(tier='quick', seed=0):
         try:
             sb.write('in.json', file_map, 'json')
             out_path = sb.path('out.yaml')
-            with Stub(generator, policies={'ns': defaults}), warnings.catch_warnings():
+            with Stub(generator, policies=by_ns), warnings.catch_warnings():
                 warnings.simplefilter('ignore')
                 got = outcome(generator._convert_policy_json_to_yaml, ['ns'], sb.path('in.json'), out_path)
             bad = None
@@ -570,7 +594,7 @@ def c19(tier='quick', seed=0):
             tokens.append(tok)
     leaves = ['role:admin', 'role:member', 'rule:helper', 'rule:undefined_rule', 'project_id:%(project_id)s', 'system:all',
               'system_scope:all', 'user_id:%(user_id)s', 'is_admin:True', 'domain_id:d1', 'project_id:%(target.project.id)s', '@', '!']
-    for it in range(60 if tier == 'quick' else 600):
+    for it in range(120 if tier == 'quick' else 1200):
         pol = {'helper': rng.choice(['role:admin', 'role:member or role:reader', '!']),
                'no_colon_name': 'role:admin'}
         if rng.random() < 0.6:
@@ -582,7 +606,8 @@ def c19(tier='quick', seed=0):
         target = rng.choice([None, {'project_id': 'p1', 'target': {'project': {'id': 'p1'}}}, {'project_id': 'zz', 'a': {'b': {'c': 1}}},
                              {'target': {'project': {'id': 'p1'}}, 'project_id': 'p1', 'user_id': 'u1'},
                              {'a': {'x': 1}, 'target': {'project': {'id': 'p1', 'domain': {'id': 'd1'}}, 'user': {'id': 'u1'}}, 'project_id': 'p1'},
-                             {'user_id': 'u1', 'a': {}, 'project_id': 'p1', 'target': {'project': {'id': 'zz'}}}])
+                             {'user_id': 'u1', 'a': {}, 'project_id': 'p1', 'target': {'project': {'id': 'zz'}}},
+                             {}, {'target': {}}, {'target': {'secret': {}}, 'other': {}}])
         apply_rule = rng.choice([None, None, 'svc:op0', 'helper'])
         sb = Sandbox()
         try:
